@@ -298,7 +298,37 @@ def op_array_to_asarray(rel, src, tree, lines):
                     yield f.name, n.lineno, ast.get_source_segment(src, n)[:60], new
 
 
+def op_zeros_to_empty(rel, src, tree, lines):
+    """numpy.zeros(...) / zeros_like -> numpy.empty(...) / empty_like: an accumulation target starts from uninitialised memory"""
+    for f in _funcs(tree):
+        for n in ast.walk(f):
+            if isinstance(n, ast.Call) and n.lineno == n.end_lineno:
+                seg = ast.get_source_segment(src, n.func)
+                if seg in ('numpy.zeros', 'numpy.zeros_like'):
+                    new = _splice(lines, n.func, seg.replace('zeros', 'empty'))
+                    if new:
+                        yield f.name, n.lineno, ast.get_source_segment(src, n)[:70], new
+
+
+def op_drop_dtype(rel, src, tree, lines):
+    """f(shape, dtype=e) -> f(shape): the allocation falls back to float64"""
+    for f in _funcs(tree):
+        for n in ast.walk(f):
+            if isinstance(n, ast.Call) and n.lineno == n.end_lineno and any(k.arg == 'dtype' for k in n.keywords):
+                fn = ast.get_source_segment(src, n.func)
+                if fn.split('.')[-1] not in ('zeros', 'empty', 'ones', 'zeros_like', 'empty_like', '__zeros__', 'array', 'asarray'):
+                    continue
+                parts = [ast.get_source_segment(src, a) for a in n.args] + \
+                        [('%s=%s' % (q.arg, ast.get_source_segment(src, q.value))) for q in n.keywords if q.arg != 'dtype']
+                txt = '%s(%s)' % (fn, ', '.join(parts))
+                new = _splice(lines, n, txt)
+                if new:
+                    yield f.name, n.lineno, txt[:70], new
+
+
 OPERATORS = {
+    'zeros_to_empty': (op_zeros_to_empty, [ALG, UT, TR]),
+    'drop_dtype': (op_drop_dtype, [ALG, UT, TR]),
     'drop_kwarg': (op_drop_kwarg, [UT, GL, TR]),
     'axis_const': (op_axis_const, [ALG, UT]),
     'tuple_slot': (op_tuple_slot, [ALG, UT]),
